@@ -99,7 +99,13 @@ fn check(o: &mut Outcome, y: i64, m: i64, d: i64, secs: i64, with_format: bool, 
         // locale prefixes, month names; one of them per day, in rotation
         const MONTHS: [&str; 12] = ["January", "February", "March", "April", "May", "June", "July", "August", "September", "October", "November", "December"];
         let mon = MONTHS[(m - 1) as usize];
-        let variants: [(&str, String); 10] = [
+        const WEEKDAYS: [&str; 7] = ["Monday", "Tuesday", "Wednesday", "Thursday", "Friday", "Saturday", "Sunday"];
+        // days_from_civil(1970-01-01) is a Thursday in the proleptic calendar used here
+        let wd = WEEKDAYS[((days_from_civil(y, m, d) - days_from_civil(1970, 1, 1)).rem_euclid(7) + 3).rem_euclid(7) as usize];
+        let variants: [(&str, String); 13] = [
+            ("[$-F800]dddd, mmmm dd, yyyy", format!("{}, {} {:02}, {:04}", wd, mon, d, y)),
+            ("[$-40C]dd/mm/yyyy", format!("{:02}/{:02}/{:04}", d, m, y)),
+            ("[$-C09]d mmmm yyyy", format!("{} {} {:04}", d, mon, y)),
             ("\"Due \"dd/mm/yyyy", format!("Due {:02}/{:02}/{:04}", d, m, y)),
             ("yyyy\"-Q-\"mm", format!("{:04}-Q-{:02}", y, m)),
             ("[$-409]yyyy/mm/dd", format!("{:04}/{:02}/{:02}", y, m, d)),
@@ -111,7 +117,7 @@ fn check(o: &mut Outcome, y: i64, m: i64, d: i64, secs: i64, with_format: bool, 
             ("mmmm d, yyyy", format!("{} {}, {:04}", mon, d, y)),
             ("dd.mm.yyyy", format!("{:02}.{:02}.{:04}", d, m, y)),
         ];
-        let (fmt, exp) = &variants[(day.rem_euclid(10)) as usize];
+        let (fmt, exp) = &variants[(day.rem_euclid(13)) as usize];
         o.count("formatted.literal-and-locale-formats", 1);
         let f = guard(|| to_formatted_string(&format!("{}", day), fmt));
         if f.as_deref() != Ok(exp.as_str()) {
